@@ -53,8 +53,19 @@ def deffn_axioms(ex, groups):
     return out
 
 
+def pow2_axioms():
+    """mathematical facts about 2**k; the bridge `1 << k == 2**k for k >= 0` is Python's semantics (A9)"""
+    from .expr import POW2
+    k = z3.Int("k!pow2")
+    return [POW2(0) == 1,
+            z3.ForAll([k], z3.Implies(k >= 1, POW2(k) == 2 * POW2(k - 1)), patterns=[POW2(k)]),
+            z3.ForAll([k], z3.Implies(k >= 0, POW2(k) >= 1), patterns=[POW2(k)])]
+
+
 def lemma_formulas(ex, groups):
     out = deffn_axioms(ex, groups)
+    if "pow2" in groups:
+        out.extend(pow2_axioms())
     for lem in ex.reg.lemmas.values():
         if lem.group in groups or lem.name in groups:
             out.append(_lemma_term(ex, lem))
